@@ -286,17 +286,21 @@ std::string checkWork(const G &g, const Model &m, const Ref &r, unsigned s, std:
             facts.tag("more_shortest_paths_than_V_plus_E");
     }
     // the bounds hold whatever was searched before in this thread: the pair searches (which may stop as soon as
-    // the destination is settled) come first, on the graph class and on the instrumented type
+    // the destination is settled) come first, on the instrumented type (per-thread scratch state is per instantiation), with a generous budget
     if (V) {
         unsigned t = (unsigned)((s * 7 + 3) % V);
-        bool few = cnt[t] <= 1000; // findAllGeodesics lists every shortest path: only where there are few
-        (void)algorithms::findGeodesics(g, s, t);
-        if (few)
-            (void)algorithms::findAllGeodesics(g, s, t);
+        bool few = cnt[t] <= 1000; // findAllGeodesics lists every shortest path to t: only where there are few
         auto cg = counting(g);
-        (void)algorithms::findGeodesics(cg, s, t);
-        if (few)
-            (void)algorithms::findAllGeodesics(cg, s, t);
+        cg.cap = 100 * (V + E + 1); // a budget far above the bounds: a search that runs away here is reported, not waited for
+        try {
+            (void)algorithms::findGeodesics(cg, s, t);
+            if (few)
+                (void)algorithms::findAllGeodesics(cg, s, t);
+        } catch (const WorkExceeded &w) {
+            observer = "pair-search-scans";
+            return "a pair search from " + std::to_string(s) + " to " + std::to_string(t) + " scanned more than 100*(V+E+1)=" + std::to_string(cg.cap) + " neighbourhoods (V=" + std::to_string(V) +
+                   ", E=" + std::to_string(E) + ")";
+        }
         facts.tag("pair_searches_before");
     }
     {
